@@ -27,6 +27,13 @@ class Unsupported(Exception):
     pass
 
 
+def _is_enum_base(e):
+    """`enum.Enum` or `(enum.Enum,)` as the second argument of isinstance"""
+    if isinstance(e, ast.Tuple) and len(e.elts) == 1:
+        e = e.elts[0]
+    return isinstance(e, ast.Attribute) and e.attr == "Enum" and isinstance(e.value, ast.Name) and e.value.id == "enum"
+
+
 def _is_self_attr(e, selfname="self"):
     return isinstance(e, ast.Attribute) and isinstance(e.value, ast.Name) and e.value.id == selfname
 
@@ -204,6 +211,10 @@ class Tr:
             return self.seq(b1 + b2, "%s %s %s" % (fn, a1, a2))
         if isinstance(e, ast.Call):
             f = e.func
+            if isinstance(f, ast.Name) and f.id == "isinstance" and len(e.args) == 2 and _is_enum_base(e.args[1]):
+                # isinstance(x, enum.Enum): x is a member of an enum class
+                b, a = self.val(e.args[0])
+                return self.seq(b, "Ok (py_is_enum_member %s)" % a)
             if isinstance(f, ast.Name) and f.id == "isinstance" and len(e.args) == 2:
                 b, a = self.val(e.args[0])
                 ks = self.classes(e.args[1])
@@ -295,6 +306,20 @@ class Tr:
             finally:
                 self.env = saved
             return self.seq(b, "let %s := %s in %s" % (v, a, k))
+        if isinstance(s, ast.Try) and len(s.handlers) == 1 and not s.orelse and not s.finalbody \
+                and isinstance(s.handlers[0].type, ast.Name) and self._ends_in_raise(s.handlers[0].body):
+            # try: <guards>  except X [as ex]: <... raise>   ->   py_catch X <guards> <handler>  (Base/PyOps.v).
+            # The guarded block is translated on its own (falling off its end is Ok tt); a name it binds is not
+            # visible afterwards (a later use is a free name: fail closed).
+            h = s.handlers[0]
+            x = h.type.id if h.type.id in EXN else '(OtherExn (s2p "%s"))' % h.type.id
+            saved = dict(self.env)
+            try:
+                body = self.stmts(list(s.body), "(Ok tt)")
+                hb = self.stmts(list(h.body), "(Ok tt)")
+            finally:
+                self.env = saved
+            return "(_ <- py_catch %s %s %s ;;\n   %s)" % (x, body, hb, self.stmts(rest, final))
         if isinstance(s, ast.Expr) and isinstance(s.value, ast.Call):
             f = s.value.func
             # super().__set__(instance, X): the chain goes on with X
